@@ -88,7 +88,8 @@ func main() {
 		// YAML an operator writes: the key left out (every third replace case; "default replace"),
 		// the documented spelling, or the same word in another letter case (the loader lower-cases)
 		spelling := sc.KeyExists
-		switch r.Intn(6) {
+		// (own hash stream: the other draws of the case stay as they were before this dimension existed)
+		switch crc32.ChecksumIEEE([]byte("yaml-"+key)) % 6 {
 		case 0, 1:
 			if sc.KeyExists == "replace" {
 				spelling = ""
